@@ -129,6 +129,14 @@ def mask_cause(x):
         return {k: mask_cause(v) for k, v in x.items()}
     if isinstance(x, list):
         return [mask_cause(v) for v in x]
+    if isinstance(x, str) and '"Cause"' in x:
+        # an Error Output that went through States.JsonToString: the Cause text sits inside a JSON text
+        try:
+            j = json.loads(x)
+        except ValueError:
+            return x
+        if isinstance(j, (dict, list)):
+            return "<json>" + json.dumps(mask_cause(j), sort_keys=True)
     return x
 
 
